@@ -14,7 +14,7 @@ try:
     for o in R.obligations:
         if '--fail' in sys.argv and o['ok']:
             continue
-        print('%s %-16s %-28s %-28s %s' % ('ok ' if o['ok'] else 'BAD', o['rule'], o['function'], o['loc'], o['what'][:150]))
+        print('%s %-16s %-28s %-28s %s' % ('ok ' if o['ok'] else 'BAD', o['rule'], o['function'], o['loc'], o["what"][:int(os.environ.get("W","150"))]))
         if not o['ok'] and o.get('detail'):
             print('      ', o['detail'])
     for n in R.notes: print('note:', n)
